@@ -2,9 +2,10 @@
 
 For every seeded *breaking variant* of a rule module (``VARIANTS``) the current tree is copied to a scratch
 directory outside /repo and /verif, the edit is applied, the copy is **analysed - never executed -** and the
-expected obligation must be reported as VIOLATED.  Generic *passing twins* (whole-file ``ast.unparse``
-re-formatting, renaming of every local of the anchor functions, logging statements inserted after every
-simple statement) must stay silent.  A variant whose ``old`` text is no longer present is counted as skipped.
+expected obligation must be reported as VIOLATED.  Generic *passing twins* - behaviour-preserving rewrites of EVERY file of the package: ``ast.unparse``
+re-formatting, renaming of every local, a logging statement after every simple statement, temporaries introduced
+for returned expressions and nested calls, ``if c: A else: B`` swapped to ``if not c: B else: A``, and
+``else`` branches after a terminating ``if`` flattened / introduced - must stay silent.  A variant whose ``old`` text is no longer present is counted as skipped.
 """
 
 from __future__ import annotations
@@ -137,6 +138,109 @@ class _AddLogging(ast.NodeTransformer):
         return node
 
 
+def _has(node, kinds) -> bool:
+    return any(isinstance(x, kinds) for x in ast.walk(node))
+
+
+class _Temps(ast.NodeTransformer):
+    """Introduce temporaries: `return <expr>` -> `t = <expr>; return t`; `x = f(g(y), ...)` -> `t = g(y); x = f(t, ...)`.
+
+    Evaluation order is kept: only the FIRST positional argument is hoisted and only when the callee expression is a plain
+    (dotted) name, so nothing that was evaluated before the hoisted call is evaluated after it now."""
+
+    def __init__(self, seed: int):
+        self.n = 0
+        self.seed = seed
+
+    def _fresh(self):
+        self.n += 1
+        return f"_tmp{self.seed}_{self.n}"
+
+    @staticmethod
+    def _plain(e):
+        while isinstance(e, ast.Attribute):
+            e = e.value
+        return isinstance(e, ast.Name)
+
+    def _split(self, st):
+        if isinstance(st, ast.Return) and st.value is not None and not isinstance(st.value, (ast.Name, ast.Constant)) and not _has(st.value, (ast.Yield, ast.YieldFrom, ast.NamedExpr)):
+            t = self._fresh()
+            return [ast.Assign(targets=[ast.Name(id=t, ctx=ast.Store())], value=st.value), ast.Return(value=ast.Name(id=t, ctx=ast.Load()))]
+        if isinstance(st, (ast.Assign, ast.Expr)) and isinstance(st.value, ast.Call):
+            c = st.value
+            if c.args and isinstance(c.args[0], ast.Call) and self._plain(c.func) and not _has(c.args[0], (ast.Yield, ast.YieldFrom, ast.NamedExpr, ast.Await, ast.Starred)) \
+                    and not (isinstance(c.func, ast.Name) and c.func.id in ("super", "isinstance", "len")):
+                t = self._fresh()
+                inner = c.args[0]
+                c.args[0] = ast.Name(id=t, ctx=ast.Load())
+                return [ast.Assign(targets=[ast.Name(id=t, ctx=ast.Store())], value=inner), st]
+        return [st]
+
+    def _body(self, body):
+        out = []
+        for st in body:
+            out.extend(self._split(st))
+        return out
+
+    def generic_visit(self, node):
+        super().generic_visit(node)
+        if isinstance(node, (ast.ClassDef, ast.Module)):
+            return node
+        for f in ("body", "orelse", "finalbody"):
+            b = getattr(node, f, None)
+            if isinstance(b, list) and b and isinstance(b[0], ast.stmt):
+                setattr(node, f, self._body(b))
+        return node
+
+
+class _IfSwap(ast.NodeTransformer):
+    """`if c: A else: B` -> `if not c: B else: A` (elif chains left alone)."""
+
+    def visit_If(self, node):
+        self.generic_visit(node)
+        if node.orelse and not (len(node.orelse) == 1 and isinstance(node.orelse[0], ast.If)) and not _has(node.test, (ast.NamedExpr,)):
+            node.test = ast.UnaryOp(op=ast.Not(), operand=node.test)
+            node.body, node.orelse = node.orelse, node.body
+        return node
+
+
+class _ElseFlat(ast.NodeTransformer):
+    """`if c: ...; return/raise/continue/break  else: B` -> `if c: ...` followed by B, and the converse for a
+    terminating `if` that is followed by more statements at the end of a function body (`if c: return x; rest` ->
+    `if c: return x  else: rest`)."""
+
+    TERM = (ast.Return, ast.Raise, ast.Continue, ast.Break)
+
+    def _flat(self, body, in_function_tail):
+        out = []
+        i = 0
+        while i < len(body):
+            st = body[i]
+            if isinstance(st, ast.If) and st.orelse and st.body and isinstance(st.body[-1], self.TERM) and not (len(st.orelse) == 1 and isinstance(st.orelse[0], ast.If)):
+                rest = st.orelse
+                st.orelse = []
+                out.append(st)
+                out.extend(rest)
+            elif in_function_tail and isinstance(st, ast.If) and not st.orelse and st.body and isinstance(st.body[-1], (ast.Return, ast.Raise)) and i + 1 < len(body):
+                st.orelse = body[i + 1:]
+                out.append(st)
+                break
+            else:
+                out.append(st)
+            i += 1
+        return out
+
+    def generic_visit(self, node):
+        super().generic_visit(node)
+        if isinstance(node, (ast.ClassDef, ast.Module)):
+            return node
+        for f in ("body", "orelse", "finalbody"):
+            b = getattr(node, f, None)
+            if isinstance(b, list) and b and isinstance(b[0], ast.stmt):
+                setattr(node, f, self._flat(b, f == "body" and isinstance(node, (ast.FunctionDef, ast.AsyncFunctionDef))))
+        return node
+
+
 def _twin_transform(root: str, files: list[str], kind: str, seed: int) -> None:
     for rel in files:
         p = os.path.join(root, rel)
@@ -148,6 +252,12 @@ def _twin_transform(root: str, files: list[str], kind: str, seed: int) -> None:
             pass
         elif kind == "rename":
             tree = _RenameLocals(f"_tw{seed}").visit(tree)
+        elif kind == "temps":
+            tree = _Temps(seed).visit(tree)
+        elif kind == "ifswap":
+            tree = _IfSwap().visit(tree)
+        elif kind == "elseflat":
+            tree = _ElseFlat().visit(tree)
         elif kind == "logging":
             tree = _AddLogging().visit(tree)
             # make sure `logging` is importable in the module (analysis only needs the name to resolve)
@@ -191,11 +301,23 @@ def _run_variant(args):
         shutil.rmtree(d, ignore_errors=True)
 
 
+TWIN_KINDS = ("unparse", "rename", "logging", "temps", "ifswap", "elseflat")
+
+
+def _package_files(root: str) -> list[str]:
+    out = []
+    for dp, _dn, fn in os.walk(os.path.join(root, "aiohomekit")):
+        for x in fn:
+            if x.endswith(".py"):
+                out.append(os.path.relpath(os.path.join(dp, x), root))
+    return sorted(out)
+
+
 def _run_twin(args):
     prop, repo, kind, files, seed = args
     d = _copy_tree(repo)
     try:
-        _twin_transform(d, files, kind, seed)
+        _twin_transform(d, _package_files(d), kind, seed)
         r = _analyse(prop, d)
         if r["status"] == "clean":
             return (kind, "silent", "")
@@ -215,7 +337,7 @@ def run_selftest(prop: str, repo: str, seed: int = 0, jobs: int = 16, verbose: b
         return res
     with ProcessPoolExecutor(max_workers=jobs) as ex:
         vres = list(ex.map(_run_variant, [(prop, repo, v) for v in variants]))
-        tres = list(ex.map(_run_twin, [(prop, repo, k, files, seed) for k in ("unparse", "rename", "logging")])) if files else []
+        tres = list(ex.map(_run_twin, [(prop, repo, k, files, seed) for k in TWIN_KINDS]))
     res["variants"] = vres
     res["twins"] = tres
     if verbose:
